@@ -23,34 +23,34 @@ const (
 )
 
 var cliFiles = map[string]string{
-	"t.nw":      cliT5,
-	"t2.nw":     cliT5b,
-	"t3.nw":     cliT5c,
-	"r.nw":      cliR4,
-	"r2.nw":     "((F:1,G:1)0.8:1,(H:1,I:2)0.9:2);\n",
-	"named.nw":  cliNamed,
-	"poly.nw":   cliPoly,
-	"t8.nw":     cliT8,
-	"com.nw":    cliCom,
-	"multi.nw":  cliT5 + cliT5b + cliT5c,
-	"boot.nw":   cliT5 + cliT5b + cliT5 + cliT5c,
-	"states.txt": "A,x\nB,x\nC,y\nD,y\nE,x\n",
-	"states6.txt": "A,x\nB,y\nC,z\nD,y\nE,x\nF,z\n",
-	"al.fa":     ">A\nACGT\n>B\nACGA\n>C\nTCGA\n>D\nTCGN\n>E\nACRT\n",
-	"prot.fa":   ">A\nMKXL\n>B\nMKVL\n>C\nMRXL\n>D\nMRIL\n>E\nMKXL\n",
-	"al.phy":    " 5 4\nA ACGT\nB ACGA\nC TCGA\nD TCGN\nE ACRT\n",
-	"alanc.fa":  ">A\nA\n>B\nA\n>ab\nA\n>C\nC\n>D\nT\n>cd\nC\n>E\nA\n>root\nA\n",
-	"annot.txt": "ann1:A,B\nann2:C,D\n",
-	"map.txt":   "A\tTa\nB\tTb\nC\tTc\nD\tTd\nE\tTe\n",
-	"tips.txt":  "A\nB\n",
-	"chainmap.txt": "A\tB\nB\tC\nC\tD\nD\tE\nE\tA\n",
+	"t.nw":          cliT5,
+	"t2.nw":         cliT5b,
+	"t3.nw":         cliT5c,
+	"r.nw":          cliR4,
+	"r2.nw":         "((F:1,G:1)0.8:1,(H:1,I:2)0.9:2);\n",
+	"named.nw":      cliNamed,
+	"poly.nw":       cliPoly,
+	"t8.nw":         cliT8,
+	"com.nw":        cliCom,
+	"multi.nw":      cliT5 + cliT5b + cliT5c,
+	"boot.nw":       cliT5 + cliT5b + cliT5 + cliT5c,
+	"states.txt":    "A,x\nB,x\nC,y\nD,y\nE,x\n",
+	"states6.txt":   "A,x\nB,y\nC,z\nD,y\nE,x\nF,z\n",
+	"al.fa":         ">A\nACGT\n>B\nACGA\n>C\nTCGA\n>D\nTCGN\n>E\nACRT\n",
+	"prot.fa":       ">A\nMKXL\n>B\nMKVL\n>C\nMRXL\n>D\nMRIL\n>E\nMKXL\n",
+	"al.phy":        " 5 4\nA ACGT\nB ACGA\nC TCGA\nD TCGN\nE ACRT\n",
+	"alanc.fa":      ">A\nA\n>B\nA\n>ab\nA\n>C\nC\n>D\nT\n>cd\nC\n>E\nA\n>root\nA\n",
+	"annot.txt":     "ann1:A,B\nann2:C,D\n",
+	"map.txt":       "A\tTa\nB\tTb\nC\tTc\nD\tTd\nE\tTe\n",
+	"tips.txt":      "A\nB\n",
+	"chainmap.txt":  "A\tB\nB\tC\nC\tD\nD\tE\nE\tA\n",
 	"chainmap2.txt": "ab\tcd\ncd\troot\nroot\tab\nA\tB\nB\tA\n",
-	"tipsx.txt": "A\nB\nC\nD\nE\nZ\nY\nX\n",
-	"groups.txt": "A,A2,A3\nC,C2\n",
-	"br.txt":    "ab\n",
-	"graft.nw":  "(X:1,Y:1,Z:1);\n",
-	"dates.nw":  "((A[&date=\"2024\"]:1,B[&date=\"2024\"]:1)[&date=\"2023\"]:1,C[&date=\"2024\"]:2)[&date=\"2022\"];\n",
-	"t.nx":      "#NEXUS\nBEGIN TAXA;\n DIMENSIONS NTAX=5;\n TAXLABELS A B C D E;\nEND;\nBEGIN TREES;\n TREE t1 = ((A:1,B:2)0.9:0.5,(C:1,D:0.25)0.7:1.5,E:3);\nEND;\n",
+	"tipsx.txt":     "A\nB\nC\nD\nE\nZ\nY\nX\n",
+	"groups.txt":    "A,A2,A3\nC,C2\n",
+	"br.txt":        "ab\n",
+	"graft.nw":      "(X:1,Y:1,Z:1);\n",
+	"dates.nw":      "((A[&date=\"2024\"]:1,B[&date=\"2024\"]:1)[&date=\"2023\"]:1,C[&date=\"2024\"]:2)[&date=\"2022\"];\n",
+	"t.nx":          "#NEXUS\nBEGIN TAXA;\n DIMENSIONS NTAX=5;\n TAXLABELS A B C D E;\nEND;\nBEGIN TREES;\n TREE t1 = ((A:1,B:2)0.9:0.5,(C:1,D:0.25)0.7:1.5,E:3);\nEND;\n",
 }
 
 func cliE(name string, args string, out ...string) cliEntry {
